@@ -28,6 +28,17 @@ type MyCondS stackage.Condition
 
 func (r MyCondS) String() string { return stackage.Condition(r).String() }
 
+// MyStackLoud / MyCondLoud: aliases whose own String method says something else than the value they
+// convert to (wrapping methods is the user's business; the package must keep treating the alias as
+// the native value it converts to).
+type MyStackLoud stackage.Stack
+
+func (r MyStackLoud) String() string { return "<<loud stack>>" }
+
+type MyCondLoud stackage.Condition
+
+func (r MyCondLoud) String() string { return "<<loud cond>>" }
+
 // Stringer leaf type
 type strLeaf struct{ S string }
 
@@ -59,6 +70,18 @@ type embStruct struct {
 type ptrStruct struct {
 	P *int
 	S []int
+}
+
+// ptrOnlyStruct is a *comparable* struct type holding a pointer: Go's == would compare the address.
+type ptrOnlyStruct struct {
+	P *int
+	N int
+}
+
+// ifaceStruct carries a primitive behind an interface-typed field.
+type ifaceStruct struct {
+	V any
+	N int
 }
 
 // ---- Val: description of a leaf value ----------------------------------------
@@ -224,6 +247,11 @@ func (v Val) Value() any {
 		return privStruct{A: int(v.I), priv: "hidden", B: v.S}
 	case "emb":
 		return embStruct{PubStruct: PubStruct{A: int(v.I), B: v.S, C: v.F}, D: v.B}
+	case "ponly":
+		x := int(v.I)
+		return ptrOnlyStruct{P: &x, N: int(v.F)}
+	case "iface":
+		return ifaceStruct{V: v.S, N: int(v.I)}
 	case "pstruct":
 		x := int(v.I)
 		s := make([]int, 0, len(v.Elems))
@@ -381,6 +409,8 @@ const (
 	WrapAliasS = 2 // alias value with wrapped String
 	WrapPtr    = 3 // pointer to alias (with String)
 	WrapPtrNS  = 4 // pointer to alias without String
+	WrapLoud   = 5 // alias whose own String says something else
+	WrapPtrLoud = 6 // pointer to such an alias
 )
 
 type Node struct {
@@ -400,6 +430,7 @@ type Node struct {
 	FwdIdx   bool       `json:"fwdidx,omitempty"`
 	NoNest   bool       `json:"nonest,omitempty"`
 	Mutex    bool       `json:"mutex,omitempty"`
+	ReadOnly bool       `json:"readonly,omitempty"` // set after everything else
 	Symbol   string     `json:"symbol,omitempty"`
 	Delim    string     `json:"delim,omitempty"`
 	Encap    [][]string `json:"encap,omitempty"`
@@ -448,6 +479,11 @@ func wrapStack(s stackage.Stack, wrap int) any {
 	case WrapPtrNS:
 		a := MyStack(s)
 		return &a
+	case WrapLoud:
+		return MyStackLoud(s)
+	case WrapPtrLoud:
+		a := MyStackLoud(s)
+		return &a
 	}
 	return s
 }
@@ -463,6 +499,11 @@ func wrapCond(c stackage.Condition, wrap int) any {
 		return &a
 	case WrapPtrNS:
 		a := MyCond(c)
+		return &a
+	case WrapLoud:
+		return MyCondLoud(c)
+	case WrapPtrLoud:
+		a := MyCondLoud(c)
 		return &a
 	}
 	return c
@@ -540,6 +581,9 @@ func buildStack(n Node, o BuildOpts) stackage.Stack {
 	}
 	if n.NoNest {
 		s.SetNoNesting(true)
+	}
+	if n.ReadOnly {
+		s.SetReadOnly(true)
 	}
 	return s
 }
